@@ -1222,6 +1222,10 @@ func sameFullName(rt reflect.Type) bool {
 	return false
 }
 
+// knownShapes: the fault texts (types taken out, see faultShape) each known family was found with. A
+// fault text that is new for its family is a violation.
+var knownShapes = map[string]map[string]bool{}
+
 // knownFault names the known family a surfaced fault belongs to, or "".
 func knownFault(c *recCase, tree any, def bool) string {
 	var sts []reflect.Type
@@ -1265,6 +1269,11 @@ func (ch *recChild) judge(c *recCase, entry string, o callOut, tree any, def, mu
 		ch.shapes[shape]++
 		ch.counts["fault_as_error"]++
 		id := knownFault(c, tree, def)
+		ch.counts["family "+id+" | "+shape]++
+		if id != "" && !knownShapes[id][shape] {
+			// a family explains the fault texts it was found with, not any fault
+			id = ""
+		}
 		if id != "" && lib.HasKnown(knownList, id) {
 			ch.counts["known."+id]++
 			ch.finding(c, "known", "fault-as-error:"+entry+":"+id, id, fmt.Sprintf("%s reports a runtime fault: %.300s", entry, o.text()))
